@@ -183,7 +183,7 @@ func init() {
 
 	register(&Rule{
 		ID: "C14.R3", Props: []string{"C14", "C03"}, Min: 2,
-		Doc: "falsy omits: in the attribute evaluator a bound result is recorded only on the IsTruthy(value)==true edge, before any merge with a same-named static attribute; a later append of a bound attribute is guarded by IsTruthy as well",
+		Doc: "falsy omits: in the attribute evaluator a bound result is recorded — in the collection that is read back into the element's attributes — only on the IsTruthy(value)==true edge, before any merge with a same-named static attribute; a later append of a bound attribute is guarded by IsTruthy as well (the map of props handed to an include may hold falsy values: :count=\"0\" passes 0)",
 		Run: func(p *Prog, c *Ctx) {
 			fn := p.MustFn("(*vuego.Vue).evalAttributes")
 			n := 0
@@ -203,6 +203,38 @@ func init() {
 					return
 				}
 				n++
+				// A map that only collects the props (written here, handed back to the caller, asked for
+				// presence) may hold falsy values: :count="0" is the prop 0. What counts is the map whose
+				// values are read back into the element's attributes.
+				readBack := false
+				for _, mo := range p.origins(mu.Map, OriginOpts{}) {
+					mk, ok := mo.(*ssa.MakeMap)
+					if !ok || mk.Referrers() == nil {
+						readBack = true // not a local collection: assume the worst
+						continue
+					}
+					for _, r := range *mk.Referrers() {
+						lk, ok := r.(*ssa.Lookup)
+						if !ok || lk.X != ssa.Value(mk) {
+							continue
+						}
+						if !lk.CommaOk {
+							readBack = true
+							continue
+						}
+						if lk.Referrers() != nil {
+							for _, u := range *lk.Referrers() {
+								if ex, ok := u.(*ssa.Extract); ok && ex.Index == 0 && ex.Referrers() != nil && len(*ex.Referrers()) > 0 {
+									readBack = true
+								}
+							}
+						}
+					}
+				}
+				if !readBack {
+					c.ok(fmt.Sprintf("evalAttributes: bound result recorded#%d", n), p.instrPos(mu), "kept as the value of the prop only; this map is never read back into the attributes")
+					return
+				}
 				guarded := guardedBy(mu.Block(), func(cnd ssa.Value, want bool) bool {
 					if cl := isCallNamed(cnd, "helpers.IsTruthy"); cl != nil && want {
 						for _, o := range p.origins(cl.Call.Args[0], OriginOpts{}) {
@@ -820,6 +852,22 @@ func init() {
 			}
 			for i, r := range returnsOf(fn) {
 				if !isNilConst(r.Results[0]) {
+					continue
+				}
+				// inside the arm for an exact map type a missing key is simply absent: no other strategy applies
+				if enteredOnlyUnder(r.Block(), func(cnd ssa.Value, want bool) bool {
+					ex, ok := cnd.(*ssa.Extract)
+					if !ok || ex.Index != 1 || !want {
+						return false
+					}
+					ta, ok := ex.Tuple.(*ssa.TypeAssert)
+					if !ok {
+						return false
+					}
+					_, isMap := ta.AssertedType.Underlying().(*types.Map)
+					return isMap
+				}) {
+					c.ok(fmt.Sprintf("resolveStep: return nil#%d", i+1), p.instrPos(r), "a missing key of an exact map type")
 					continue
 				}
 				c.check(dominates(fb, r), fmt.Sprintf("resolveStep: return nil#%d", i+1), p.instrPos(r), "after the reflective fallback", "absence is reported before the reflective fallback was tried: a numeric-looking segment on a pointer-to-slice or a typed map reports absence where Go indexing reaches an element")
